@@ -73,6 +73,13 @@ def run(ctx):
         if k:
             nontriv.add(l)
     ofail += fc_norows_fail[:1]
+    # (e) the export: write_back (DetailedExport.v) against DetailedPlacement::exportPlacement after sequences of swaps/inserts,
+    #     and the proved checkers legalb / orient_okb on the exported C++ circuit (theorems c02_write_back_*, c04_write_back_*)
+    from checks import c02_export as ce
+    eres = ce.run_export(ctx, 1500 if ctx.quick else 40000, seed=s + 80)
+    ofail += [(l, i, "DetailedPlacement::exportPlacement after a sequence of swaps/inserts from a legal circuit: the exported circuit is not legal (proved checker legalb = false): " + str(why))
+              for l, i, why in eres["impl_illegal"][:2]]
+    ofail += [(l, i, "the harness got no exported circuit: " + str(why)) for l, i, why in eres["crash"][:1]]
     dres = do.run_dopt(ctx, 3000 if ctx.quick else 60000, seed=s + 40)
     cres = dc.run_detailed(ctx, 1200 if ctx.quick else 30000, seed=s + 20, prop="C02")
     for key in ("legal_fail", "shift_fail", "check_fail", "throw_fail", "crash"):
@@ -101,6 +108,12 @@ def run(ctx):
                           % (len(fc_mism), len(fc_lines)),
                           {"broken": "correspondence of coq/DetailedInit.v (theorem c02_from_circuit_accepts_legal)",
                            "first_difference": {"case": fc_mism[0][0], "implementation": fc_mism[0][1], "model": fc_mism[0][2]}}, found_input=False)
+        if eres["mismatch"] or eres["model_illegal"]:
+            first = (eres["mismatch"] or eres["model_illegal"])[0]
+            ctx.violation("correspondence DetailedExport.v write_back <-> DetailedPlacement::exportPlacement broken (%d of %d runs differ, %d model outputs not legal); no illegal exposed state found"
+                          % (len(eres["mismatch"]), eres["runs"], len(eres["model_illegal"])),
+                          {"broken": "correspondence of coq/DetailedExport.v (theorems c02_write_back_legal, c02_detailed_placement_exposes_legal_circuits)",
+                           "first_difference": {"case": first[0], "implementation": str(first[1])[:2000], "model": str(first[2])[:2000]}}, found_input=False)
         for key, what, thm in (("net_diff", "the min-cost-flow network built by DetailedPlacer::runShiftsOnCells differs from the model ShiftLp.shift_net on the same state",
                                 "correspondence of coq/ShiftLp.v shift_net / pos_arcs (theorems c02_shift_constraints_are_dual_feasibility, c02_shift_dual_feasible_legal)"),
                                ("dual_infeasible", "lemon's potentials for a shift pass are not dual feasible for the model's network",
@@ -117,7 +130,7 @@ def run(ctx):
     cov.update({"trusted_base": common.TRUSTED_BASE + ["the five index arrays of DetailedPlacement: modelled (MovesConcrete.v), proved to refine the per-row lists, and compared array by array (tag DC); the lists are compared through rowCells()",
                                                         "lemon NetworkSimplex (shift pass) is not modelled: legality after a shift pass follows (proved) from dual feasibility of its potentials, which is re-checked per call "
                                                         "(needs the hook coloquinte_verif_shift_hook in /repo), and the positions written are re-checked with the proved guard shift_ok"],
-                "evaluations": len(lines) + dres["runs"] + cres["runs"] + len(fc_lines),
+                "evaluations": len(lines) + dres["runs"] + cres["runs"] + len(fc_lines) + eres["runs"],
                 "distinct_nontrivial": len(nontriv) + dres["nontrivial"] + cres["moved_runs"],
                 "rule": "DM: 1-4 row segments (several per y), 1-7 cells with all polarities, 1-10 random ops (swap, insert, unplace, place at arbitrary x) + "
                         "EXHAUSTIVE: every sequence of 1 and 2 (thorough: 3) swap/insert operations over all cell/row/predecessor arguments from small initial "
@@ -128,6 +141,7 @@ def run(ctx):
                 "exposed_states_checked_legal": cres["states"] + dres["ops"],
                 "shift_passes_checked_against_proved_guard": dres["shifts_checked"],
                 "shift_lp_certificates": do.lp_summary(lp),
+                "export_tie": ce.summary(eres),
                 "samples": [lines[0], exh[len(exh) // 2], cres["lines"][0][:500]],
                 "concrete_array_sequences": len(dc_lines), "concrete_array_ops_performed": dc_ops,
                 "concrete_array_differences": len(dc_mism),
@@ -142,6 +156,12 @@ def run(ctx):
 def replay(ctx, path):
     r = json.load(open(path))["replay"]
     case = r.get("case") or r["first_difference"]["case"]
+    if case.startswith("EX"):
+        from checks import c02_export as ce
+        harness = common.build_harness("dexport"); driver = common.build_driver("export")
+        impl, model, _ = common.run_both([harness, "run"], [driver], [case])
+        print("case :", case); print("impl :", impl[0]); print("model:", model[0])
+        return 1 if impl[0].strip() != model[0].partition(" | ")[0].strip() else 0
     name = {"DM": "dplace", "DC": "dplace", "DO": "dopt", "DP": "detailed", "FC": "dinit"}[case[:2]]
     harness = common.build_harness(name)
     driver = common.build_driver()
